@@ -16,8 +16,9 @@
                    (0 descriptor, 1 os.ErrNotExist, 2 ErrCorrupted), the descriptor, and the directory afterwards.
      KOps kind pre ty num ops : the mutating system calls observed with strace during SetMeta(fd) (kind 0) or a
                    read-write GetMeta (kind 1) on a directory holding [pre], in order, LOG traffic excluded.
-     KCrash pre m0 ty num k mask sel img res rty rnum : [img] is the crash image (mask / sel) of the model after
-                   the first k operations of set_meta (ty,num) from [pre]; the real read-only GetMeta on a directory
+     KCrash kind pre m0 ty num k mask sel img res rty rnum : [img] is the crash image (mask / sel) of the model after
+                   the first k operations of set_meta (ty,num) (kind 0) or of the repair of a read-write GetMeta
+                   (kind 1) from [pre]; the real read-only GetMeta on a directory
                    holding [img] answered (res, rty, rnum); the model must produce the same image and the same
                    answer, and the answer must be the old manifest number m0 or the new one.
      KLife exists steps : OpenFile / Lock / Unlock / Close / guarded methods on one directory: error classes. *)
@@ -36,7 +37,7 @@ Inductive c18case :=
 | KParse (name : string) (ok : bool) (ty : N) (num : Z)
 | KDir (ro : bool) (pre : list (string * string)) (res ty : N) (num : Z) (post : list (string * string))
 | KOps (kind : N) (pre : list (string * string)) (ty : N) (num : Z) (ops : list kfsop)
-| KCrash (pre : list (string * string)) (m0 : Z) (ty : N) (num : Z) (k : N) (mask : list bool) (sel : list (N * N))
+| KCrash (kind : N) (pre : list (string * string)) (m0 : Z) (ty : N) (num : Z) (k : N) (mask : list bool) (sel : list (N * N))
          (img : list (string * string)) (res rty : N) (rnum : Z)
 | KLife (dirx : bool) (steps : list (fcall * N)).
 
@@ -139,12 +140,13 @@ Definition run_case (c : c18case) : bool :=
       | Some t =>
           ops_match (if (kind =? 0)%N then set_meta_ops v (FD t num) else snd (get_meta_ops false v)) ops
       end
-  | KCrash pre m0 ty num k mask sel img res rty rnum =>
+  | KCrash kind pre m0 ty num k mask sel img res rty rnum =>
       let v := mkview pre in
       match ftype_of_code ty with
       | None => false
       | Some t =>
-          let s := fapply_all (fs_of_view v) (firstn (N.to_nat k) (set_meta_ops v (FD t num))) in
+          let ops := if (kind =? 0)%N then set_meta_ops v (FD t num) else snd (get_meta_ops false v) in
+          let s := fapply_all (fs_of_view v) (firstn (N.to_nat k) ops) in
           let im := image_view mask (sel_of sel) s in
           view_eqb im (mkview img) &&
           gres_matches (get_meta_result im) res rty rnum &&
